@@ -447,6 +447,66 @@ def listexpr2(node, env):
     raise Untranslatable(f"list construct {ast.unparse(node)}")
 
 
+def boolgate(node):
+    """truthiness of an option expression as a Gallina bool over (ms_ tol_ cb): max_stagnation, tol, callback [is not None]"""
+    if isinstance(node, ast.BoolOp):
+        op = " || " if isinstance(node.op, ast.Or) else " && "
+        return "(" + op.join(boolgate(v) for v in node.values) + ")"
+    if isinstance(node, ast.Name) and node.id in ("max_stagnation", "tol", "callback"):
+        return {"max_stagnation": "ms_", "tol": "tol_", "callback": "cb"}[node.id]
+    if (isinstance(node, ast.Compare) and len(node.ops) == 1 and isinstance(node.ops[0], ast.IsNot) and getattr(node.left, "id", "") == "callback"
+            and isinstance(node.comparators[0], ast.Constant) and node.comparators[0].value is None):
+        return "cb"
+    if isinstance(node, ast.Constant) and isinstance(node.value, bool):
+        return "true" if node.value else "false"
+    if isinstance(node, ast.UnaryOp) and isinstance(node.op, ast.Not):
+        return f"(negb {boolgate(node.operand)})"
+    raise Untranslatable(f"gate {ast.unparse(node)}")
+
+
+def rand_gate_goal(fn):
+    """randomised_parafac: in the iteration loop the error is recomputed (rec_error = ...) under a gate; it is recorded (rec_errors.append(rec_error)) and
+    handed to the callback (callback(..., rec_error)) under gates.  Semantic condition (the hypotheses of C06_randomised_gating_values_true): whenever the
+    value is recorded or handed over it has been recomputed in the same iteration, and the recomputation precedes both."""
+    loops = [n for n in fn.body if isinstance(n, ast.For) and getattr(n.target, "id", "") == "iteration"]
+    if len(loops) != 1:
+        raise Untranslatable("randomised_parafac: expected one `for iteration` loop")
+    comp = rec = cbk = None
+    order = []
+    for j, st in enumerate(loops[0].body):
+        if not isinstance(st, ast.If):
+            if any(isinstance(x, ast.Name) and x.id == "rec_error" and isinstance(x.ctx, ast.Store) for x in ast.walk(st)):
+                comp = ("true", j); order.append("compute")
+            continue
+        body_src = "\n".join(ast.unparse(b) for b in st.body)
+        if any(isinstance(b, ast.Assign) and getattr(b.targets[0], "id", "") == "rec_error" for b in st.body):
+            if comp is not None:
+                raise Untranslatable("randomised_parafac: rec_error assigned twice in the loop")
+            comp = (boolgate(st.test), j); order.append("compute")
+        if "rec_errors.append(rec_error)" in body_src:
+            if rec is not None:
+                raise Untranslatable("randomised_parafac: rec_errors.append appears twice")
+            rec = (boolgate(st.test), j); order.append("record")
+        if "callback(" in body_src:
+            calls = [c for b in st.body for c in ast.walk(b) if isinstance(c, ast.Call) and _callname(c) == "callback"]
+            if len(calls) != 1 or len(calls[0].args) != 2 or ast.unparse(calls[0].args[1]) != "rec_error":
+                raise Untranslatable("randomised_parafac: the in-loop callback is not called with rec_error")
+            cbk = (boolgate(st.test), j); order.append("callback")
+    if comp is None or rec is None or cbk is None:
+        raise Untranslatable(f"randomised_parafac: missing statement (compute={comp}, record={rec}, callback={cbk})")
+    if not (comp[1] < rec[1] and comp[1] < cbk[1]):
+        raise Untranslatable("randomised_parafac: the error is recorded or handed to the callback before it is recomputed")
+    return "rand_gates", f"""
+Definition gen_compute (ms_ tol_ cb : bool) : bool := {comp[0]}.
+Definition gen_record (ms_ tol_ cb : bool) : bool := {rec[0]}.
+Definition gen_cb (ms_ tol_ cb : bool) : bool := {cbk[0]}.
+Lemma tie_rand_gates : forall ms_ tol_ cb,
+  (gen_record ms_ tol_ cb = true -> gen_compute ms_ tol_ cb = true) /\\ (gen_cb ms_ tol_ cb = true -> gen_compute ms_ tol_ cb = true) /\\
+  (cb = true -> gen_cb ms_ tol_ cb = true) /\\ (gen_record ms_ tol_ cb = (ms_ || tol_)).
+Proof. intros [] [] []; repeat split; try reflexivity; try discriminate; intros H; try exact H; reflexivity. Qed.
+"""
+
+
 def _rank_index(node, env):
     """rank[e] -> e"""
     if isinstance(node, ast.Subscript) and getattr(node.value, "id", "") == "rank":
@@ -454,7 +514,7 @@ def _rank_index(node, env):
     raise Untranslatable(f"expected rank[...], found {ast.unparse(node)}")
 
 
-def tr_semantic_goal(fn):
+def tr_semantic_goal(fn, universal=False):
     """the PIECES of the axis bookkeeping of tensor_ring_als, whatever their syntactic form, checked semantically by
     Model/Errors.v:tr_bookkeeping_ok (sound: Proofs/ErrorsTR.v:tr_bookkeeping_ok_sound) for every order 2..7 and every mode"""
     env = {"n_dim": "N", "dim": "dim"}
@@ -524,6 +584,27 @@ def tr_semantic_goal(fn):
     missing = [x for x in need if x not in src]
     if missing:
         raise Untranslatable(f"tensor_ring_als: the reported residual is no longer the residual of the last sub-problem: {missing}")
+    if universal:
+        # OPTIONAL universal form: the regenerated pieces pass the checker for EVERY order >= 2 and mode, by rewriting them into the model's
+        # pieces (C06_tr_bookkeeping_model_passes_checker); proves only while the source keeps today's syntactic forms
+        return "tr_pieces", f"""
+Definition gen_tr_ok_u (N dim : nat) : bool := tr_bookkeeping_ok N dim {chain} {row_modes} {perm} {cols} {sol_rows} {sol_perm}.
+Lemma map_seq_ext_u (f g : nat -> nat) n n' : n = n' -> (forall i, i < n -> f i = g i) -> map f (seq 0 n) = map g (seq 0 n').
+Proof. intros <- H. apply map_ext_in. intros i Hi. apply in_seq in Hi. apply H. lia. Qed.
+Lemma app_cong_u (a a' b b' : list nat) : a = a' -> b = b' -> a ++ b = a' ++ b'.
+Proof. intros -> ->. reflexivity. Qed.
+Lemma tie_tr_idx_u : forall N dim, dim < N -> {perm} = tr_idx N dim.
+Proof.
+  intros N dim Hd. unfold tr_idx. rewrite <- ?app_assoc.
+  apply app_cong_u; [apply map_seq_ext_u; [lia | intros; lia] | apply app_cong_u; [apply map_seq_ext_u; [lia | intros; lia] | ]].
+  try reflexivity; repeat f_equal; lia.
+Qed.
+Lemma tie_tr_pieces : forall N dim, 2 <= N -> dim < N -> gen_tr_ok_u N dim = true.
+Proof.
+  intros N dim HN Hd. rewrite <- (tr_bookkeeping_model_ok_all N dim HN Hd). unfold gen_tr_ok_u, tr_bookkeeping_model_ok.
+  rewrite (tie_tr_idx_u N dim Hd). rewrite ?map_id, ?(filter_neq_seq0 N dim Hd), <- ?(tr_chain_unfold N dim HN). reflexivity.
+Qed.
+"""
     return "tr_semantic", f"""
 Definition gen_tr_ok (N dim : nat) : bool := tr_bookkeeping_ok N dim {chain} {row_modes} {perm} {cols} {sol_rows} {sol_perm}.
 Lemma tie_tr_semantic : forallb (fun N => forallb (fun dim => gen_tr_ok N dim) (seq 0 N)) (seq 2 6) = true.
@@ -588,6 +669,8 @@ def ties(repo):
         ("loop_order_non_negative_parafac_hals", lambda: cfg_goal("non_negative_parafac_hals", _fn(nn, "non_negative_parafac_hals"), True)),
         ("tr_idx", lambda: tr_idx_goal(_fn(tr, "tensor_ring_als"))),
         ("tr_semantic", lambda: tr_semantic_goal(_fn(tr, "tensor_ring_als"))),
+        ("tr_pieces", lambda: tr_semantic_goal(_fn(tr, "tensor_ring_als"), universal=True)),
+        ("rand_gates", lambda: rand_gate_goal(_fn(cp, "randomised_parafac"))),
         ("loop_order_constrained_parafac", lambda: cfg_goal("constrained_parafac", _fn(cc, "constrained_parafac"), False)),
     ]
     out = []
@@ -606,7 +689,7 @@ def run_ast_tie(chk):
     # optional goals: UNIVERSAL forms of a tie whose mandatory form is semantic but bounded (tr_idx: syntactic equality with the model's
     # tr_idx for every order; tr_semantic: the bookkeeping checker on the regenerated pieces for orders 2..7).  A consistent refactoring
     # of the bookkeeping loses the universal form (recorded) without breaking the tie
-    OPTIONAL = {"tr_idx"}
+    OPTIONAL = {"tr_idx", "tr_pieces"}
     chk.cov["ast_tie"] = res
     chk.checker_cmds.append("coqc on goals generated from the Python ast of _cp.py / _nn_cp.py / _constrained_cp.py / _tucker.py / _parafac2.py "
                             "(expression under each shortcut's sqrt, iprod pairing, MTTKRP weights, line-search test) re-proving the C06 identities")
